@@ -357,6 +357,57 @@ def run_impl(case, extra, probes=False):
         shutil.rmtree(d, ignore_errors=True)
 
 
+def run_history(cases, extra, n_sims=1):
+    """consecutive runs of the simulator's world set-up over ONE input folder, through the production
+    entry points of SimulationManager.setup_infrastructure / setup_emissions
+    (initialization.initialize_infrastructure + initialize_emissions): run k rewrites the input files
+    and parameters of cases[k]; the generator folder is left as run k-1 left it.
+    Returns [(status, world | what, reused_from_disk)] — the world each run actually uses."""
+    import contextlib
+    import datetime
+    import logging
+    import warnings
+    from initialization.initialize_infrastructure import initialize_infrastructure
+    from initialization.initialize_emissions import initialize_emissions
+    from constants.file_name_constants import Generator_Files
+    d = Path(tempfile.mkdtemp(prefix="c15h_"))
+    out = []
+    try:
+        gen_dir = d / Generator_Files.GENERATOR_FOLDER
+        for k, case in enumerate(cases):
+            for name in ("sites.csv", "site_types.csv", "equipment.csv", "sources.csv"):
+                if (d / name).exists():
+                    os.remove(d / name)
+            write_folder(case, d)
+            bad = check_roundtrip(case, d)
+            if bad:
+                out.append(("infra", bad, None))
+                break
+            vw, methods = build_params(case, extra)
+            start = datetime.date(*vw["start_date"])
+            end = start + datetime.timedelta(days=6)
+            vw["end_date"] = [end.year, end.month, end.day]
+            programs = {"P": {"program_name": "P", "method_labels": list(methods), "methods": methods}}
+            np.random.seed(case.get("np_seed", 0) + k)
+            logging.disable(logging.CRITICAL)
+            try:
+                with contextlib.redirect_stdout(io.StringIO()), warnings.catch_warnings():
+                    warnings.simplefilter("ignore")
+                    infra, reused = initialize_infrastructure(methods, programs, vw, gen_dir, d, False, None, False)
+                    initialize_emissions(n_sims, False, None, reused, infra, start, end, gen_dir,
+                                         pre_simulation_emissions=True)
+                out.append(("ok", read_world(infra, case["methods"]), bool(reused)))
+            except SystemExit:
+                out.append(("reject", "SystemExit", None))
+            except Exception as e:
+                out.append(("crash", "%s: %s" % (type(e).__name__, e), None))
+            finally:
+                logging.disable(logging.NOTSET)
+        return out
+    finally:
+        shutil.rmtree(d, ignore_errors=True)
+
+
 def _try(f):
     try:
         return f()
